@@ -494,7 +494,17 @@ class BoundRepoMethods:
                         cache[ck] = ast.literal_eval(k.attrs[name][1])
                         return cache[ck]
                     except (ValueError, TypeError, SyntaxError):
+                        pass
+                    # not a plain literal ({"RMSE": np.nan}): evaluated once in the class's module scope with the rule's stand-ins
+                    try:
+                        env_ = cache.get(k.module.name) or ModuleEnv(chk.repo, k.module, interp, stand_ins, cache)
+                        v_ = interp.ev(k.attrs[name][1], env_)
+                    except Unsupported:
                         break
+                    if isinstance(v_, (dict, list, set, tuple, str, int, float, bool, type(None))):
+                        cache[ck] = v_
+                        return v_
+                    break
             orc = self.__dict__.get("_oracle")
             if orc is not None:
                 return AbsBool(f"self.{name}", orc)
